@@ -53,7 +53,7 @@ theorem step_pc_only {s : Sys} {i : Nat} {t : Thread} {pc' : Pc} {s' : Sys}
   refine ⟨by simp [hi], ?_⟩
   intro j hj
   have hne : ¬ i = j := fun e => hj e.symm
-  simp [List.getElem?_set, hne]
+  simp [hne]
 
 /-- the loop of StartWatches under the write lock, run alone and without faults -/
 theorem sw_loop {i cid : Nat} {op : Op} {a : List Nat} (rest : List Wid) :
@@ -91,7 +91,7 @@ theorem sw_loop {i cid : Nat} {op : Op} {a : List Nat} (rest : List Wid) :
         · exact hmono _ (hst _ h3)
       · exact hrest w hw' hc
     · -- x is started: GetInformer, AddEventHandler
-      simp only [hskip, if_false, swPc] at ht
+      simp only [hskip, swPc] at ht
       -- step 1: GetInformer
       let s1 : Sys := (Act.getInformer x.gvk false).apply
         { s with threads := s.threads.set i ⟨op, .swAH cid a st x xs (handle s x.gvk)⟩ }
